@@ -198,7 +198,8 @@ def handle (req : Json) : R Json := do
     | .ok el =>
       match serializeJson [el] [] with
       | .ok j => pure (Json.mkObj [("parse", "ok"), ("r", "ok"), ("json", encVal j), ("elem", encElem el),
-          ("nf_good", nfGood cx schema), ("nf", nfBool cx (parseE cx schema))])
+          ("nf_good", nfGood cx schema), ("nf", nfBool cx (parseE cx schema)),
+          ("good_src", (flagsOf cx schema).all), ("good_nf", (flagsOf cx (toSchema (parseE cx schema))).all)])
       | .error _ => pure (Json.mkObj [("parse", "ok"), ("r", "err"), ("elem", encElem el)])
   | "to_schema" => do
     -- the schema-level model of the serializer against the (dereferenced) output of the real `serialize_json`;
